@@ -51,6 +51,61 @@ fn nest_doc(rng: &mut Rng, quick: bool) -> (DocSpec, &'static str) {
         ("<s>", "</s>", 100_000, "s"),
         ("<strong>", "</strong>", 100_000, "strong"),
     ];
+    // Breadth instead of depth, one time in six: tens of thousands of
+    // siblings (cells, rows, items, paragraphs, links ...), as
+    // prefix + item x n + second item x m.  Linear for the library except
+    // where noted; a table of n cells in one row and m further rows is the
+    // case that found the per-row copy of the column widths (rows x columns
+    // x 8 bytes).
+    if rng.chance(1, 6) {
+        let wide: &[(&str, &str, &str, &'static str)] = &[
+            ("<table><tr>", "<td>", "<tr>", "wide:sparse-table"),
+            ("<table><tr>", "<td>x", "<tr><td>y", "wide:sparse-table-text"),
+            ("<table>", "<tr><td>x", "", "wide:rows"),
+            ("<table><tr>", "<td>x", "", "wide:cols"),
+            ("<table>", "<tr><td>a<td>b<td>c", "", "wide:rows3"),
+            ("<table><tr>", "<td><p>a<p>b", "", "wide:cols-blocks"),
+            ("<table>", "<col>", "<tr><td>x", "wide:col-elements"),
+            ("<ul>", "<li>x", "", "wide:ul"),
+            ("<ol>", "<li>x", "", "wide:ol"),
+            ("<ol start=-5>", "<li>", "<li>x", "wide:ol-empty-items"),
+            ("", "<p>x", "", "wide:p"),
+            ("", "<br>", "<p>x", "wide:br-then-p"),
+            ("<dl>", "<dt>a<dd>b", "", "wide:dl"),
+            ("", "<a href=u>l</a> ", "", "wide:links"),
+            ("", "<a href=u id=i0 name=n></a>", "x ", "wide:empty-links"),
+            ("", "<img src=a alt=b>", "", "wide:imgs"),
+            ("<pre>", "x\n", "", "wide:pre-lines"),
+            ("<pre>", "\t", "a\t\n", "wide:pre-tabs"),
+            ("", "<hr>", "", "wide:hr"),
+            ("<select>", "<option>a", "", "wide:options"),
+            ("", "x<sup>1</sup> ", "", "wide:sups"),
+            ("", "<h1>t", "<h6>u", "wide:headings"),
+            ("", "<blockquote>q</blockquote>", "", "wide:quotes"),
+            ("", "<div id=i0>d</div>", "<span id=i1></span>", "wide:ids"),
+            ("<p>", "\u{263a}\u{fe0f} ", "", "wide:sequences"),
+            ("<p>", "&amp;", "&#x5bbd;", "wide:entities"),
+            ("", "<!-- c -->", "x<!---->", "wide:comments"),
+            ("<style>", "p{color:red;}", "", "wide:rules-in-style"),
+        ];
+        let (prefix, item, second, label) = rng.pick(wide);
+        let counts: &[u32] = if quick { &[300, 4_000, 32_000] } else { &[10, 300, 4_000, 16_000, 32_000] };
+        let n = rng.pick(counts);
+        let m = if second.is_empty() { 0 } else { rng.pick(counts) };
+        let suffix = rng.pick(&["", "", "tail", "<p>after</p>", "</table>"]);
+        return (
+            DocSpec::Nest {
+                prefix: Blob(prefix.as_bytes().to_vec()),
+                open: Blob(item.as_bytes().to_vec()),
+                depth: n,
+                inner: Blob(Vec::new()),
+                close: Blob(second.as_bytes().to_vec()),
+                closes: m,
+                suffix: Blob(suffix.as_bytes().to_vec()),
+            },
+            label,
+        );
+    }
     let (mut open, mut close, mut maxd, label) = {
         let (a, b, c, d) = rng.pick(kinds);
         (a.to_string(), b.to_string(), c, d)
@@ -132,8 +187,11 @@ pub fn generate(run_seed: u64, quick: bool) -> Scenario {
 
     // --- document
     let mut corrupt_events = 0;
+    let mut wide = false;
     let doc: DocSpec = if class == 3 {
-        nest_doc(&mut wl, quick).0
+        let (d, label) = nest_doc(&mut wl, quick);
+        wide = label.starts_with("wide:");
+        d
     } else {
         let size = wl.weighted(&[25, 42, 26, if quick { 3 } else { 7 }]);
         let mut target = match size {
@@ -251,6 +309,36 @@ pub fn generate(run_seed: u64, quick: bool) -> Scenario {
         // deep nesting with CSS descendant chains is the adversarial selector case
         if wl.chance(1, 4) {
             config.use_doc_css = true;
+        }
+    }
+    // Very long decorator strings (up to 10^4 characters) multiply with the
+    // number of decorated elements: 3000 nested <s> with a 20 000-character
+    // strike marker is 10^8 characters of requested output (met as an
+    // `abort:oom` in the first quick run that had them).  They go with small
+    // documents only.
+    if class == 3 || doc_bytes_len > 6000 {
+        if let Deco::Custom { strings } = &mut config.decorator {
+            let clamp = |s: &mut String| {
+                if s.len() > 60 {
+                    s.truncate(60);
+                }
+            };
+            clamp(&mut strings.link_start);
+            clamp(&mut strings.link_end);
+            for pair in [
+                &mut strings.em,
+                &mut strings.strong,
+                &mut strings.strike,
+                &mut strings.code,
+                &mut strings.img,
+                &mut strings.sup,
+            ] {
+                clamp(&mut pair.0);
+                clamp(&mut pair.1);
+            }
+            clamp(&mut strings.header);
+            clamp(&mut strings.quote);
+            clamp(&mut strings.ul);
         }
     }
     // pad_block_width: bounded widths only
@@ -403,7 +491,7 @@ pub fn generate(run_seed: u64, quick: bool) -> Scenario {
     // such combinations keep d <= 3000; deeper nests use non-annotating
     // elements or the unit-annotation decorators.
     let mut doc = doc;
-    if matches!(config.decorator, Deco::Rich | Deco::Custom { .. }) {
+    if !wide && matches!(config.decorator, Deco::Rich | Deco::Custom { .. }) {
         if let DocSpec::Nest { open, depth, closes, .. } = &mut doc {
             let plain_kind = open.0.starts_with(b"<span") || open.0.starts_with(b"<x-y") || open.0.starts_with(b"<div");
             if !plain_kind && *depth > 3000 {
@@ -423,7 +511,17 @@ pub fn generate(run_seed: u64, quick: bool) -> Scenario {
             let m = doc.materialise();
             m.windows(6).any(|w| w.eq_ignore_ascii_case(b"<style")) || m.windows(6).any(|w| w == b"style=")
         });
-    if has_css {
+    // Breadth with CSS: `:nth-child` finds an element's index by scanning its
+    // siblings, for every (rule, element) pair - rules x n^2 steps, 10^10 for ten
+    // rules over 32000 siblings.  Polynomial and the library's documented way of
+    // working (a stated limit, DESIGN section 12), so such documents stay at 3000 siblings.
+    if has_css && wide {
+        if let DocSpec::Nest { depth, closes, .. } = &mut doc {
+            *depth = (*depth).min(3000);
+            *closes = (*closes).min(3000);
+        }
+    }
+    if has_css && !wide {
         if let DocSpec::Nest { depth, closes, .. } = &mut doc {
             if *depth > 500 {
                 *depth = 500;
